@@ -441,15 +441,40 @@ theorem c11_spatial_add_scale (k0 : Az) (k1 : Lon) (f g a0 a1 a2 : ℝ) :
   have e3 : cart3 ks ls ga.1 ga.2.1 ga.2.2 = _ := cart3_of_interp3 (refine_spatial_scale k0 k1 g a0 a1 a2 ha)
   rw [refine_spatial_scale k0 k1 (f + g) a0 a1 a2 ha, spatial_add_ok h2, e2, e3, add_smul3]
 
+/-- the code flips θ to `|θ − π|` (negative factor) or `|θ − π/2|` (zero factor): still in `[0, π]` -/
+private theorem flip_range (f θ : ℝ) (h0 : 0 ≤ θ) (h1 : θ ≤ π) :
+    0 ≤ |θ + 0.5 * (P.sign f - 1) * π| ∧ |θ + 0.5 * (P.sign f - 1) * π| ≤ π := by
+  refine ⟨abs_nonneg _, ?_⟩
+  rw [abs_le]
+  have hp := pi_pos
+  rcases lt_trichotomy f 0 with hf | hf | hf
+  · have hs : P.sign f = -1 := by simp [P.sign, Real.sign_of_neg hf]
+    have e : θ + 0.5 * (P.sign f - 1) * π = θ - π := by rw [hs]; ring
+    rw [e]; constructor <;> linarith
+  · have hs : P.sign f = 0 := by subst hf; simp [P.sign]
+    have e : θ + 0.5 * (P.sign f - 1) * π = θ - π / 2 := by rw [hs]; ring
+    rw [e]; constructor <;> linarith
+  · have hs : P.sign f = 1 := by simp [P.sign, Real.sign_of_pos hf]
+    have e : θ + 0.5 * (P.sign f - 1) * π = θ := by rw [hs]; ring
+    rw [e]; constructor <;> linarith
+
+/-- the θ stored in a scaled vector is again in `[0, π]` -/
+theorem c11_spatial_scale_thetaRange (k0 : Az) (k1 : Lon) (f a0 a1 a2 : ℝ) (h : ThetaRange k1 a2) :
+    ThetaRange (lonOfRet (spatial_scale.ret k0 k1)) (spatial_scale.eval k0 k1 f a0 a1 a2).2.2 := by
+  cases k0 <;> cases k1 <;> first
+    | trivial
+    | exact flip_range f a2 h.1 h.2
+
 /-- `f·(g·a) = (f g)·a` -/
 theorem c11_spatial_scale_scale (k0 : Az) (k1 : Lon) (f g a0 a1 a2 : ℝ) :
     let ga := spatial_scale.eval k0 k1 g a0 a1 a2
     let ks := azOfRet (spatial_scale.ret k0 k1)
     let ls := lonOfRet (spatial_scale.ret k0 k1)
-    (ha : ThetaRange k1 a2) → (hga : ThetaRange ls ga.2.2) →
+    (ha : ThetaRange k1 a2) →
     interp3 (spatial_scale.ret ks ls) (spatial_scale.eval ks ls f ga.1 ga.2.1 ga.2.2)
       = interp3 (spatial_scale.ret k0 k1) (spatial_scale.eval k0 k1 (f * g) a0 a1 a2) := by
-  intro ga ks ls ha hga
+  intro ga ks ls ha
+  have hga : ThetaRange ls ga.2.2 := c11_spatial_scale_thetaRange k0 k1 g a0 a1 a2 ha
   have e : cart3 ks ls ga.1 ga.2.1 ga.2.2 = _ := cart3_of_interp3 (refine_spatial_scale k0 k1 g a0 a1 a2 ha)
   rw [refine_spatial_scale ks ls f ga.1 ga.2.1 ga.2.2 hga, refine_spatial_scale k0 k1 (f * g) a0 a1 a2 ha, e,
     smul3_smul3]
@@ -605,6 +630,13 @@ example : AddOK3 .xy .theta .rhophi .eta 1 0 1 1 0 1 ∧ ThetaRange .theta 1 ∧
   refine ⟨⟨hc, trivial, Or.inr ?_⟩, ⟨by norm_num, by linarith [two_le_pi]⟩, hc,
     (sin_pos_of_pos_of_lt_pi one_pos (by linarith [two_le_pi])).ne'⟩
   norm_num [add3, cart3, xOf, yOf]
+
+/-- the hypotheses of a nested law are satisfiable (mixed azimuthal systems) -/
+example : True := by
+  have := c11_spatial_add_assoc .rhophi .z .xy .z .rhophi .z 1 2 3 4 5 6 7 8 9
+    ⟨trivial, trivial, Or.inl rfl⟩ ⟨trivial, trivial, Or.inl rfl⟩ ⟨trivial, trivial, Or.inl rfl⟩
+    ⟨trivial, trivial, Or.inl rfl⟩
+  trivial
 
 /-! ## 4D (Minkowski metric (−,−,−,+)) -/
 
@@ -883,5 +915,15 @@ example : AddOK4 .xy .theta .tau .rhophi .eta .t 1 0 1 2 1 0 1 3 ∧ ScaleOK4 .t
   refine ⟨⟨⟨hc, hs, h2⟩, ⟨trivial, trivial, trivial⟩, Or.inr ?_⟩,
     ⟨⟨by norm_num, by linarith [two_le_pi]⟩, fun _ => by norm_num⟩, ⟨hc, hs, h2⟩⟩
   norm_num [add3, cart3, xOf, yOf]
+
+/-- the hypotheses of a nested 4D law are satisfiable (mixed azimuthal and temporal systems) -/
+example : True := by
+  have h2 : CanonTmp .tau 2 := by show (0 : ℝ) ≤ 2; norm_num
+  have := c11_lorentz_add_assoc .rhophi .z .tau .xy .z .t .rhophi .z .t 1 2 3 2 4 5 6 7 7 8 9 10
+    ⟨⟨trivial, trivial, h2⟩, ⟨trivial, trivial, trivial⟩, Or.inl rfl⟩
+    ⟨⟨trivial, trivial, trivial⟩, ⟨trivial, trivial, trivial⟩, Or.inl rfl⟩
+    ⟨⟨trivial, trivial, trivial⟩, ⟨trivial, trivial, trivial⟩, Or.inl rfl⟩
+    ⟨⟨trivial, trivial, h2⟩, ⟨trivial, trivial, trivial⟩, Or.inl rfl⟩
+  trivial
 
 end VR
